@@ -5,6 +5,7 @@ import (
 	"context"
 	"errors"
 	"fmt"
+	"sync"
 	"testing"
 
 	"pgregory.net/rapid"
@@ -49,7 +50,7 @@ func genC06(t *rapid.T) c06Prog {
 	for i := 0; i < nc; i++ {
 		p.Corrupt = append(p.Corrupt, corruption{Pos: rapid.IntRange(0, 1<<12).Draw(t, "pos"), Kind: rapid.SampledFrom(c06Kinds).Draw(t, "kind")})
 	}
-	p.Policy = rapid.SampledFrom([]string{"none", "none", "writer", "payload", "hash"}).Draw(t, "policy")
+	p.Policy = rapid.SampledFrom([]string{"none", "none", "writer", "payload", "hash", "context"}).Draw(t, "policy")
 	p.PolArg = rapid.IntRange(0, 1<<12).Draw(t, "polarg")
 	p.Deny = rapid.Bool().Draw(t, "denyAppend")
 	p.Conc = rapid.SampledFrom([]int{0, 0, 1, 2, 3, 4, 5, 7}).Draw(t, "conc")
@@ -64,6 +65,11 @@ type policy struct {
 	prefix  []byte          // payload prefix denied
 	hashes  map[string]bool // entry hashes denied
 	denyAll bool
+	// kind "context": the decision looks at the log through the context the library hands over; it permits an
+	// entry iff that log holds exactly the entries the destination held before the operation
+	ctxWant world.Set
+	ctxSeen string // first deviation observed (diagnostics)
+	ctxMu   sync.Mutex
 }
 
 var errDenied = errors.New("denied by generated policy")
@@ -83,9 +89,28 @@ func (p *policy) denies(e iface.IPFSLogEntry) bool {
 	return false
 }
 
-func (p *policy) CanAppend(le accesscontroller.LogEntry, _ idp.Interface, _ accesscontroller.CanAppendAdditionalContext) error {
+func (p *policy) CanAppend(le accesscontroller.LogEntry, _ idp.Interface, actx accesscontroller.CanAppendAdditionalContext) error {
 	e, ok := le.(iface.IPFSLogEntry)
 	if !ok {
+		return nil
+	}
+	if p.kind == "context" && !p.denyAll && p.ctxWant != nil {
+		got := world.Set{}
+		if actx != nil {
+			for _, x := range actx.GetLogEntries() {
+				if he, ok := x.(iface.IPFSLogEntry); ok {
+					got.Add(he.GetHash().String())
+				}
+			}
+		}
+		if !got.Equal(p.ctxWant) {
+			p.ctxMu.Lock()
+			if p.ctxSeen == "" {
+				p.ctxSeen = fmt.Sprintf("the access controller was shown a log of %d entries while deciding on %s, the log held %d before the operation", len(got), world.Short(e.GetHash().String()), len(p.ctxWant))
+			}
+			p.ctxMu.Unlock()
+			return errDenied
+		}
 		return nil
 	}
 	if p.denies(e) {
@@ -271,9 +296,13 @@ func runC06(tb ev.TB, p c06Prog) ev.Result {
 			}
 		}
 	}
+	if p.Policy == "context" {
+		pol.ctxWant = dstModel.Clone()
+	}
 	before := takeSnap(dst)
 	probeBefore := appendProbe(tb, w, dst, pol)
 	ret, jerr := dst.Join(srcLog, -1)
+	pol.ctxWant = nil // the context policy is about this merge only
 	after := takeSnap(dst)
 	if len(invalid) > 0 {
 		classes = append(classes, "merge-rejected")
@@ -289,7 +318,7 @@ func runC06(tb ev.TB, p c06Prog) ev.Result {
 	} else {
 		classes = append(classes, "merge-accepted")
 		if jerr != nil {
-			tb.Fatalf("merge of a source whose %d candidates are all valid and permitted failed: %v (corrupted non-candidates: %d, policy %s)", len(cands), jerr, len(corrupted), p.Policy)
+			tb.Fatalf("merge of a source whose %d candidates are all valid and permitted failed: %v (corrupted non-candidates: %d, policy %s %s)", len(cands), jerr, len(corrupted), p.Policy, pol.ctxSeen)
 		}
 		_ = ret
 		want := dstModel.Clone()
@@ -397,7 +426,7 @@ func (a snap) diff(b snap) string {
 
 func TestC06(t *testing.T) {
 	c := ev.Get("C06")
-	c.Rule = "a generated multi-replica program (1-4 writers, default/link-key/legacy codec) builds valid logs; every appended entry must verify and the source must merge into a fresh permissive replica. Then a corruption plan (0..all positions; kinds: signature removed/from another entry/bit-flipped, key removed/foreign/garbage/truncated, payload/next/time changed after signing, foreign log id) is applied to copies placed in a source log built with NewLog(Entries, Heads), the destination holds another replica's entries and a generated pure access policy (deny by writer / payload prefix / hash set). The harness computes the candidate set itself; if any candidate is invalid or denied the merge must fail and leave the full snapshot (entries, heads, values, published heads, clock, result of a following append) unchanged, otherwise it must succeed with destination ∪ candidates. Also: denied Append returns an error and changes neither entries nor heads. Non-trivial = an invalid candidate that is not a head of the source, with >= 2 candidates; distinct = distinct program."
+	c.Rule = "a generated multi-replica program (1-4 writers, default/link-key/legacy codec) builds valid logs; every appended entry must verify and the source must merge into a fresh permissive replica. Then a corruption plan (0..all positions; kinds: signature removed/from another entry/bit-flipped, key removed/foreign/garbage/truncated, payload/next/time changed after signing, foreign log id) is applied to copies placed in a source log built with NewLog(Entries, Heads), the destination holds another replica's entries and a generated pure access policy (deny by writer / payload prefix / hash set, or one that inspects the log through the context the library hands over and permits an entry only while that log is exactly what the destination held before the merge). The harness computes the candidate set itself; if any candidate is invalid or denied the merge must fail and leave the full snapshot (entries, heads, values, published heads, clock, result of a following append) unchanged, otherwise it must succeed with destination ∪ candidates. Also: denied Append returns an error and changes neither entries nor heads. Non-trivial = an invalid candidate that is not a head of the source, with >= 2 candidates; distinct = distinct program."
 	c.Assumptions = []string{"the access controller is a pure function safe for concurrent calls", "an entry with a foreign log id is skipped silently (together with what is only reachable through it), as the statement's first clause says, and is not one of the error-raising kinds"}
 	ev.Check(t, "C06", genC06, runC06)
 }
